@@ -6,7 +6,10 @@ import (
 	"testing"
 
 	abci "github.com/tendermint/tendermint/abci/types"
+	"github.com/tendermint/tendermint/libs/log"
+	mpmock "github.com/tendermint/tendermint/mempool/mock"
 	tmproto "github.com/tendermint/tendermint/proto/tendermint/types"
+	sm "github.com/tendermint/tendermint/state"
 	"github.com/tendermint/tendermint/types"
 	"pgregory.net/rapid"
 
@@ -28,23 +31,26 @@ func refFromSet(vs *types.ValidatorSet) *refSet {
 }
 
 type lookupHistory struct {
-	t       *rapid.T
-	c       *lib.Chain
-	init    int64
-	base    int64           // lowest height the store is obliged to serve
-	valsAt  map[int64]bool  // heights at which a new validator set came into force (genesis, H+2 for a batch at H)
-	parsAt  map[int64]bool  // heights at which new consensus params came into force (genesis, H+1)
-	batches map[int64][]chg // batch returned by EndBlock of height H
-	trace   []string
-	cls     map[string]bool
-	viaLast int // successful lookups that had to go through the last-changed record (distance >= 1)
-	viaCkpt int // ... through the checkpoint record
-	direct  int
-	parsInd int
-	below   int // lookups below base that answered (correctly)
-	known   int
-	maxDist int64
-	sweeps  int
+	t            *rapid.T
+	c            *lib.Chain
+	init         int64
+	base         int64           // lowest height the store is obliged to serve
+	valsAt       map[int64]bool  // heights at which a new validator set came into force (genesis, H+2 for a batch at H)
+	parsAt       map[int64]bool  // heights at which new consensus params came into force (genesis, H+1)
+	batches      map[int64][]chg // batch returned by EndBlock of height H
+	trace        []string
+	cls          map[string]bool
+	viaLast      int // successful lookups that had to go through the last-changed record (distance >= 1)
+	viaCkpt      int // ... through the checkpoint record
+	direct       int
+	parsInd      int
+	below        int // lookups below base that answered (correctly)
+	known        int
+	maxDist      int64
+	sweeps       int
+	restarts     int   // node restarts: state re-read from the store, new store handle and executor
+	lastRestart  int64 // tip at the last restart (records of heights >= lastRestart+2 were written by the restarted node)
+	afterRestart int   // successful indirect lookups of heights whose record the restarted node wrote
 }
 
 func lastAtOrBelow(m map[int64]bool, h int64) int64 {
@@ -134,6 +140,9 @@ func (lh *lookupHistory) sweep() {
 				if dist > lh.maxDist {
 					lh.maxDist = dist
 				}
+				if lh.restarts > 0 && dist > 0 && h >= lh.lastRestart+2 {
+					lh.afterRestart++
+				}
 			}
 		}
 		// consensus params: record for h exists for h <= tip+1
@@ -183,6 +192,46 @@ func (lh *lookupHistory) tolerated(h, tgt int64, got, want *types.ValidatorSet) 
 	lib.ObservedKnown(findingScaleOnce)
 	lib.ExcludedByKnown(findingScaleOnce)
 	return true
+}
+
+// restart: what a node start does to the state machinery: a new store handle on the same database, the state read
+// back from it (Store.Load -> FromProto), a new block executor. The chain then continues from the loaded state. The
+// sets the node works with must come back exactly (members, powers, priorities, proposer), and every later lookup is
+// held to the same oracle as without a restart.
+func (lh *lookupHistory) restart() {
+	t, c := lh.t, lh.c
+	before := c.State
+	c.StateStore = sm.NewStore(c.StateDB, sm.StoreOptions{DiscardABCIResponses: c.Spec.DiscardABCI})
+	loaded, err := c.StateStore.Load()
+	if err != nil || loaded.IsEmpty() {
+		t.Fatalf("restart at tip %d: Store.Load: err=%v empty=%v\ntrace %v", c.Tip(), err, loaded.IsEmpty(), lh.trace)
+	}
+	for _, p := range []struct {
+		name      string
+		was, back *types.ValidatorSet
+	}{{"Validators", before.Validators, loaded.Validators}, {"NextValidators", before.NextValidators, loaded.NextValidators},
+		{"LastValidators", before.LastValidators, loaded.LastValidators}} {
+		if d := snapOf(p.was).diff(snapOf(p.back), len(p.was.Validators) > 0); d != "" {
+			t.Fatalf("restart at tip %d: %s of the reloaded state differ from the ones in force before (before vs reloaded): %s\ntrace %v",
+				c.Tip(), p.name, d, lh.trace)
+		}
+	}
+	if loaded.LastBlockHeight != before.LastBlockHeight || paramsBytes(loaded.ConsensusParams) != paramsBytes(before.ConsensusParams) {
+		t.Fatalf("restart at tip %d: reloaded state is at height %d with params %v, before: %d, %v", c.Tip(), loaded.LastBlockHeight,
+			loaded.ConsensusParams, before.LastBlockHeight, before.ConsensusParams)
+	}
+	c.State = loaded
+	c.Exec = sm.NewBlockExecutor(c.StateStore, log.NewNopLogger(), c.Proxy.Consensus(), mpmock.Mempool{}, sm.EmptyEvidencePool{})
+	lh.restarts++
+	lh.lastRestart = c.Tip()
+	if lh.lastRestart == 0 {
+		lh.lastRestart = lh.init - 1
+	}
+	tip := lh.lastRestart
+	if lastAtOrBelow(lh.valsAt, tip+2) != lastAtOrBelow(lh.parsAt, tip+1) {
+		lh.cls["restart-while-validators-and-params-last-changed-at-different-heights"] = true
+	}
+	lh.trace = append(lh.trace, fmt.Sprintf("restart@%d", tip))
 }
 
 // specEvolution: the set in force at every height follows from the previous one by the model: apply the batch that
@@ -254,7 +303,7 @@ func TestHistoricalLookup(t *testing.T) {
 		}
 		accepted, paramChanges, prunes := 0, 0, 0
 		for s := 0; s < steps; s++ {
-			act := rapid.SampledFrom([]string{"plain", "plain", "plain", "plain", "plain", "vals", "vals", "vals", "params", "both", "prune", "prune", "sweep"}).Draw(t, "act")
+			act := rapid.SampledFrom([]string{"plain", "plain", "plain", "plain", "plain", "vals", "vals", "vals", "params", "both", "prune", "prune", "sweep", "restart"}).Draw(t, "act")
 			if act == "prune" {
 				tip := c.Tip()
 				if tip == 0 || tip <= lh.base {
@@ -280,6 +329,10 @@ func TestHistoricalLookup(t *testing.T) {
 					lh.sweep()
 					continue
 				}
+			}
+			if act == "restart" {
+				lh.restart()
+				continue
 			}
 			if act == "sweep" {
 				lh.trace = append(lh.trace, "sweep")
@@ -362,7 +415,8 @@ func TestHistoricalLookup(t *testing.T) {
 			fmt.Sprintf("pruned:%v", prunes > 0), fmt.Sprintf("checkpoint-crossed:%v", crossed), fmt.Sprintf("lookup-via-checkpoint:%v", lh.viaCkpt > 0),
 			fmt.Sprintf("lookup-via-lastchanged:%v", lh.viaLast > 0), fmt.Sprintf("checkpoint-lookup-after-change:%v", lh.viaCkpt > 0 && accepted > 0),
 			fmt.Sprintf("params-indirect:%v", lh.parsInd > 0), fmt.Sprintf("answered-below-base:%v", lh.below > 0), "max-distance:" + distBucket,
-			fmt.Sprintf("known-finding-tolerated:%v", lh.known > 0)}
+			fmt.Sprintf("known-finding-tolerated:%v", lh.known > 0), fmt.Sprintf("restarted:%v", lh.restarts > 0),
+			fmt.Sprintf("indirect-lookup-of-height-written-after-restart:%v", lh.afterRestart > 0)}
 		for k := range lh.cls {
 			cls = append(cls, k)
 		}
